@@ -3,7 +3,7 @@
 # Applies a seeded change in a scratch worktree of /repo (never /repo itself), runs the
 # check of <prop> against it (VERIF_REPO), removes the worktree. Replays go to /tmp/mutreplays.
 id=$1; prop=$2; shift 2
-patch=$id; [ -f "$patch" ] || patch=/verif/seeded/$id/patch.diff
+patch=$(realpath -q "$id" 2>/dev/null); [ -f "$patch" ] || patch=/verif/seeded/$id/patch.diff
 wt=/tmp/mut_$$_$(basename $id)
 git -C /repo worktree add --detach $wt HEAD -f >/dev/null 2>&1 || { echo "worktree failed"; exit 3; }
 git -C $wt apply $patch || { echo "APPLY FAILED $patch"; git -C /repo worktree remove --force $wt; exit 3; }
